@@ -15,10 +15,12 @@ class Prop(GraphProp):
             "multi-orders + seeded request schedule; the Hamiltonian-term callback is the monitored seam: after every "
             "operation its call log must lie in the dependency cone of the requested orders, definitions may touch order 0 "
             "only, each term is evaluated at most once; in the poisoned-twin variant every term outside the cone of the "
-            "final target raises (or is NaN) and the target must still equal the un-poisoned value. non-trivial = at "
+            "final target raises (or is NaN) and the target must still equal the un-poisoned value; in the altered-twin variant the "
+            "terms outside a protected cone are scaled by 1e6 / 1e-6 / -3 / 1e3, the schedule is unrestricted (requests outside the "
+            "cone evaluate the altered terms first) and every request inside the cone must return the value of the unaltered world. non-trivial = at "
             "least 3 value-returning requests with at least one Hamiltonian term of order >= 1 evaluated; distinct = "
             "distinct sha256 of the event log")
-    probes = ["fmt_implicit", "poison_runs", "poison_target_ok", "cb_H", "op_array", "multi_comp_world", "fmt_scalar_idx",
+    probes = ["fmt_implicit", "altered_twin_runs", "altered_out_of_cone_request", "poison_runs", "poison_target_ok", "cb_H", "op_array", "multi_comp_world", "fmt_scalar_idx",
               "fmt_scalar_vecs", "fmt_dict", "fmt_list", "h_term_order_ge2"]
     assumptions = ["only evaluations of the caller's Hamiltonian callback are observed (cache hits are not calls)",
                    "chained computations are excluded (their callback legitimately evaluates another computation)"]
@@ -27,6 +29,9 @@ class Prop(GraphProp):
                "p_derived": 0.3}
     profile_poison = {"p_chain": 0.0, "fmts": ["blocked"] * 4 + ["scalar_idx"] * 2 + ["scalar_vecs", "dict", "dict", "list"],
                       "p_illposed": 0.0, "p_derived": 0.3, "domains": ["dense"] * 6 + ["sparse"] * 2}
+
+    profile_alter = {"p_chain": 0.0, "fmts": ["blocked"] * 4 + ["scalar_idx"] * 3 + ["scalar_vecs", "dict", "dict", "nested"],
+                     "p_illposed": 0.0, "p_derived": 0.3, "domains": ["dense"] * 6 + ["sparse"] * 2}
 
     def generate(self, r, tier, idx):
         import itertools
@@ -42,12 +47,36 @@ class Prop(GraphProp):
             ops = self.gen_ops(r, w, tier, {**self.profile_poison, "max_ops": 15}, cone=[n])
             ops.append(["get", c, s, r.randrange(nb), r.randrange(nb), list(n)])
             return {"world": w, "ops": ops, "faults": [], "poison": [list(n)]}
+        if r.random() < 0.25:
+            # altered twin: every term outside the cone of n is scaled by a large (or small, or negative) factor in the world
+            # that is executed; the schedule is unrestricted, and every request inside the cone - whatever was evaluated
+            # before it - must return the value of the unaltered world
+            w = self.gen_world(r, tier, self.profile_alter)
+            nb, npert = len(w["sizes"]), w["npert"]
+            cap = world_cap(w)
+            cands = [n for n in itertools.product(range(world_box(w) + 1), repeat=npert) if 1 <= sum(n) <= cap]
+            outside = [n for n in cands if any(not all(a <= b for a, b in zip(t, n)) for t in map(tuple, w["terms"]))]
+            n = r.choice(outside or cands)
+            if w["domain"] in ("dense", "sparse") and r.random() < 0.5:
+                # small but significant terms inside the cone (a history-dependent tolerance would swallow them)
+                w["term_scale"] = [r.choice([1.0, 1e-4, 1e-8]) if all(a <= b for a, b in zip(t, n)) else 1.0 for t in w["terms"]]
+            ops = self.gen_ops(r, w, tier, {**self.profile_alter, "max_ops": 12})
+            tail = [op for op in self.gen_ops(r, w, tier, {**self.profile_alter, "max_ops": 10}, cone=[n]) if op[0] != "build"]
+            ops += tail
+            for _ in range(2):
+                c = r.randrange(len(w["comps"]))
+                s = r.choice(["H_tilde", "U", "U_inv"] + (["d0", "d2"] if w.get("derived") else []))
+                m = r.choice([m for m in cands if all(a <= b for a, b in zip(m, n))])
+                ops.append(["get", c, s, r.randrange(nb), r.randrange(nb), list(m)])
+            return {"world": w, "ops": ops, "faults": [], "alter": {"cone": [list(n)], "factor": r.choice([1e6, 1e6, 1e-6, -3.0, 1e3])}}
         w = self.gen_world(r, tier, self.profile)
         ops = self.gen_ops(r, w, tier, self.profile)
         return {"world": w, "ops": ops, "faults": []}
 
     def execute(self, case):
         out = super().execute(case)
+        if case.get("alter"):
+            out["counters"]["altered_twin_runs"] = 1
         if case.get("poison"):
             out["counters"]["poison_runs"] = 1
             if out["violation"] is None:
